@@ -36,7 +36,7 @@ def main():
     meta_path = os.path.join(seed, "meta.json")
     meta = json.load(open(meta_path)) if os.path.exists(meta_path) else {}
     checks = (a.checks.split(",") if a.checks else [meta.get("property")])
-    env = dict(os.environ, XPMC_NPROC=str(a.nproc), XPMC_EVIDENCE_DIR="/tmp/seeded_evidence")
+    env = dict(os.environ, XPMC_NPROC=str(a.nproc), XPMC_EVIDENCE_DIR="/tmp/seeded_evidence_%d" % os.getpid())
     wt = None
     if a.mode == "repo":
         st = sh("git -C /repo status --porcelain --untracked-files=no").stdout.strip()
@@ -47,7 +47,10 @@ def main():
             sys.exit("patch does not apply: " + r.stdout)
     else:
         wt = "/tmp/seedrun_%d" % os.getpid()
-        sh("git -C /repo worktree add --detach %s HEAD" % wt)
+        for attempt in range(6):      # concurrent sweeps: git serialises worktree registration with a lock file
+            if sh("git -C /repo worktree add --detach %s HEAD" % wt).returncode == 0:
+                break
+            time.sleep(1.0 + attempt)
         r = sh("git -C %s apply %s" % (wt, patch))
         if r.returncode:
             sh("git -C /repo worktree remove --force %s" % wt)
@@ -66,6 +69,7 @@ def main():
             sh("git -C /repo checkout -- .")
         else:
             sh("git -C /repo worktree remove --force %s" % wt)
+        sh("rm -rf /tmp/seeded_evidence_%d" % os.getpid())
         # evidence files were rewritten by runs against a modified tree: they are not evidence for the real tree
     meta.setdefault("runs", []).append({"mode": a.mode, "tier": a.tier, "repo_head": sh("git -C /repo rev-parse --short HEAD").stdout.strip(),
                                         "verif_head": sh("git -C %s rev-parse --short HEAD" % ROOT).stdout.strip(), "results": results})
